@@ -79,6 +79,10 @@ func cacheRun(c *cacheCase) {
 					lastFs = common.ToFilters(cacheCopyFilters(st.Qs[j].Fs))
 				}
 				st.Qs[j].Out = idsOf(cache.Find(lastFs))
+				if !common.FiltersIntact(lastFs, st.Qs[j].Fs) {
+					st.Panic = "Find rewrote the filters it was given"
+					lastFs = nil
+				}
 			}
 		}()
 		if st.List == nil {
